@@ -261,7 +261,7 @@ func runC19(w *mon.W) {
 						w.Cover("tamper/bitflip-" + region)
 						tryTampered("bitflip-"+region, b, t)
 					}
-					if ln <= 1024 {
+					if len(stored) <= 1024+40 {
 						for b := 0; b < bits; b++ {
 							flip(b)
 						}
